@@ -264,6 +264,22 @@ func eventDatagramsX(thorough, reduced bool, fn func(i int64, b []byte)) (total,
 		}
 	}
 	distinct += 4 * 256 * 2
+	// (3b) pairs of single-byte event fields over all 65536 value pairs: the event type (offset 12)
+	// with each of access granted / door / direction / reason (13, 14, 15, 27), and reason with each
+	// of those - a table indexed by one of them and sized by another is reached only by such pairs
+	if !reduced {
+		for _, pr := range [][2]int{{12, 27}, {12, 13}, {12, 14}, {12, 15}, {13, 27}, {14, 27}, {15, 27}} {
+			b := append([]byte{}, samples[0]...)
+			for x := 0; x < 256; x++ {
+				b[pr[0]] = byte(x)
+				for y := 0; y < 256; y++ {
+					b[pr[1]] = byte(y)
+					emit(b)
+				}
+			}
+		}
+		distinct += 7 * 65536
+	}
 	// (4) thorough: every adjacent byte pair over all 65536 values on both samples
 	if thorough && !reduced {
 		for _, sample := range samples {
